@@ -54,6 +54,106 @@ def corrupt(prop, events):
     return None, "no event to corrupt"
 
 
+UUID_RE = __import__("re").compile(r"^[0-9a-f]{8}-[0-9a-f]{4}-[0-9a-f]{4}-[0-9a-f]{4}-[0-9a-f]{12}$")
+
+
+def tree_nodes(v, path=()):
+    """all (path, node) pairs of a JSON tree"""
+    yield path, v
+    if isinstance(v, dict):
+        for k in v:
+            yield from tree_nodes(v[k], path + (k,))
+    elif isinstance(v, list):
+        for i, x in enumerate(v):
+            yield from tree_nodes(x, path + (i,))
+
+
+def possible_edits(doc):
+    """single structural edits: (kind, path)"""
+    ids = sorted({n for _, n in tree_nodes(doc) if isinstance(n, str) and UUID_RE.match(n)})
+    out = []
+    for path, node in tree_nodes(doc):
+        if not path:
+            continue
+        if isinstance(path[-1], str):
+            out.append(("delete_key", path))
+        else:
+            out.append(("delete_item", path))
+        if isinstance(node, list):
+            out += [("empty_array", path), ("duplicate_array", path), ("truncate_array", path)]
+        elif isinstance(node, str) and UUID_RE.match(node):
+            out += [("redirect_nil", path), ("redirect_absent", path), ("redirect_other", path)]
+        elif isinstance(node, (int, float)) and not isinstance(node, bool):
+            out += [("zero", path), ("negate", path)]
+    return out, ids
+
+
+def apply_edit(doc, kind, path, ids, rng):
+    cur = doc
+    for p in path[:-1]:
+        cur = cur[p]
+    k = path[-1]
+    try:
+        if kind in ("delete_key", "delete_item"):
+            del cur[k]
+        elif kind == "empty_array":
+            cur[k] = []
+        elif kind == "duplicate_array":
+            cur[k] = cur[k] + copy.deepcopy(cur[k])
+        elif kind == "truncate_array":
+            cur[k] = cur[k][:len(cur[k]) // 2]
+        elif kind == "redirect_nil":
+            cur[k] = "00000000-0000-0000-0000-000000000000"
+        elif kind == "redirect_absent":
+            cur[k] = "deadbeef-dead-beef-dead-beefdeadbeef"
+        elif kind == "redirect_other":
+            cur[k] = rng.choice(ids)
+        elif kind == "zero":
+            cur[k] = 0 if isinstance(cur[k], int) else 0.0
+        elif kind == "negate":
+            cur[k] = -cur[k]
+    except (KeyError, IndexError, TypeError):
+        return False
+    return True
+
+
+def json_tree_edits(quick):
+    import random
+    rng = random.Random(seed())
+    ddir = os.path.join(REPO, "bemodel/tests/data")
+    files = sorted(f for f in os.listdir(ddir) if f.endswith(".json"))
+    probe = open(os.path.join(ddir, "cubo.json")).read()
+    reqs = []
+    for fn in files:
+        base = json.load(open(os.path.join(ddir, fn)))
+        edits, ids = possible_edits(base)
+        if quick:
+            singles = rng.sample(edits, min(len(edits), 70))
+            multi = 25
+        else:
+            # every single edit of the structural part (schedule day values are thousands of plain numbers: sampled)
+            singles = [e for e in edits if not (len(e[1]) >= 3 and e[1][0] == "schedules" and e[1][1] == "day" and "values" in e[1])]
+            singles += rng.sample([e for e in edits if e not in singles], 200) if len(edits) > len(singles) else []
+            if len(singles) > 6000:
+                singles = rng.sample(singles, 6000)
+            multi = 600
+        for kind, path in singles:
+            doc = copy.deepcopy(base)
+            if apply_edit(doc, kind, path, ids, rng):
+                reqs.append({"json": json.dumps(doc), "ops": ["compute_lite"], "lite": True, "probe_json": probe,
+                             "name": fn, "edit": "%s %s" % (kind, "/".join(str(p) for p in path))})
+        for _ in range(multi):
+            doc = copy.deepcopy(base)
+            desc = []
+            for _ in range(rng.choice([2, 3])):
+                ed, ids2 = possible_edits(doc)
+                kind, path = rng.choice(ed)
+                if apply_edit(doc, kind, path, ids2 or ids, rng):
+                    desc.append("%s %s" % (kind, "/".join(str(p) for p in path)))
+            reqs.append({"json": json.dumps(doc), "ops": ["compute_lite"], "lite": True, "probe_json": probe, "name": fn, "edit": " ; ".join(desc)})
+    return reqs
+
+
 def model_name(events, line):
     for i in range(line - 1, -1, -1):
         if events[i]["ev"] == "Load":
@@ -63,6 +163,10 @@ def model_name(events, line):
 
 def fail_key(events, line, name):
     e = events[line - 1]
+    if e["ev"] == "ComputeLite":
+        if e.get("outcome") != "ok":
+            return "%s:%s" % (name, (e.get("site") or "").split("|")[0])
+        return "%s:%s" % (name, ",".join(sorted(set(n.split("[")[0] for n in e.get("nonfinite", [])))) or e.get("name"))
     mname, _ = model_name(events, line)
     detail = ""
     if e["ev"] == "Compute":
@@ -110,6 +214,10 @@ def run_session_check(prop, tier, replay=None):
                 cases.append(c)
         write_ndjson(cases_file, cases)
         ncases = len(cases)
+    # C14: models reached by 1..3 structural edits of the JSON tree of the shipped models
+    edits_file = os.path.join(wd, "edits.reqs")
+    if prop == "C14" and replay is None:
+        write_ndjson(edits_file, json_tree_edits(quick))
     # (iii) record executions of the real library
     trace = os.path.join(wd, "trace.ndjson")
     if replay is not None:
@@ -119,10 +227,11 @@ def run_session_check(prop, tier, replay=None):
         stats = vh(["session", "--reqs", reqf, "--random", "0", "--broken", "0", "--out", trace])
     else:
         nr, nb = (60, 60) if quick else (1500, 1500)
+        extra = ["--reqs", edits_file] if prop == "C14" else []
         stats = vh(["session", "--corpus", "--cases", cases_file, "--random", str(nr), "--broken", str(nb),
-                    "--size", "4" if quick else "6", "--out", trace], timeout=7200)
+                    "--size", "4" if quick else "6", "--out", trace] + extra, timeout=7200)
     events = read_ndjson(trace)
-    reqs = {r.get("name"): r for r in read_ndjson(trace + ".reqs")}
+    reqs = {(r.get("name") if not r.get("lite") else "%s|%s" % (r.get("name"), r.get("edit"))): r for r in read_ndjson(trace + ".reqs")}
     # (iv) validate against the specification
     fails, consumed, res = validate_trace("Trace_Session", trace, prop, prop + "_trace", timeout=7200)
     if not consumed:
@@ -137,9 +246,14 @@ def run_session_check(prop, tier, replay=None):
         key = fail_key(events, line, name)
         mname, li = model_name(events, line)
         e = events[line - 1]
+        if e["ev"] == "ComputeLite":
+            mname = "%s after [%s]" % (e.get("name"), e.get("edit"))
         what = "%s fails on %s (trace line %d): %s" % (name, mname, line, json.dumps(
             {k: e.get(k) for k in ("outcome", "site", "nonfinite", "bad", "warn") if k in e})[:300])
-        R.violation(key, what, {"requests": [reqs[mname]] if mname in reqs else [], "event": e if len(json.dumps(e)) < 20000 else {"ev": e["ev"]},
+        rq = [reqs[mname]] if mname in reqs else []
+        if e["ev"] == "ComputeLite":
+            rq = [r for r in reqs.values() if r.get("edit") == e.get("edit") and r.get("name") == e.get("name")][:1]
+        R.violation(key, what, {"requests": rq, "event": e if len(json.dumps(e)) < 20000 else {"ev": e["ev"]},
                                 "obligation": name, "cmd": "./bin/check %s --replay {path}" % prop})
     # (v) negative control: the binding must be able to reject
     if replay is None and not R.violations:
@@ -157,6 +271,35 @@ def run_session_check(prop, tier, replay=None):
         R.cov["negative_controls"].append({"corruption": desc, "rejected": fired})
         if not fired:
             raise ToolError("negative control did not fire (%s): the binding cannot reject, nothing it says is believed" % desc)
+    # C11, second part: the tilt / orientation classifiers on 32-bit floats against the interval tables
+    if prop == "C11" and replay is None:
+        res = mc_ok(tlc("MC_Classifiers", "MC_Classifiers.cfg", "C11_cls_mc", workers=2), "MC_Classifiers")
+        if res["violated"]:
+            raise ToolError("Classifiers.tla violated: %s" % res["violated"])
+        R.add_mc("MC_Classifiers", res)
+        ctrace = os.path.join(wd, "classify.ndjson")
+        cst = vh(["classify", "--out", ctrace] + ([] if quick else ["--full"]), timeout=3600)
+        cev = read_ndjson(ctrace)
+        cfails, ccons, cres = validate_trace("Trace_Classifiers", ctrace, "C11", "C11_cls_trace")
+        if not ccons:
+            raise ToolError("classifier trace not consumed")
+        R.cov["classifier_floats_evaluated"] = cst.get("evaluated")
+        R.cov["classifier_runs"] = len(cev)
+        R.cov["classifier_exhaustive"] = not quick
+        for line, p, name in cfails:
+            e = cev[line - 1]
+            R.violation("%s:%s" % (name, e.get("class", "")), "%s fails: %s" % (name, json.dumps(e)[:300]), {"events": [e], "part": "classifiers"})
+        if not R.violations:
+            bad = copy.deepcopy(cev)
+            for e in bad:
+                if e["ev"] == "ClassRun" and e["kind"] == "tilt" and e["class"] == "SIDE":
+                    e["class"] = "TOP"
+                    write_ndjson(os.path.join(wd, "classify_control.ndjson"), [e])
+                    break
+            cf2, _, _ = validate_trace("Trace_Classifiers", os.path.join(wd, "classify_control.ndjson"), "C11", "C11_cls_control")
+            R.cov["negative_controls"].append({"corruption": "a run of vertical tilts reported as roof", "rejected": bool(cf2)})
+            if not cf2:
+                raise ToolError("negative control did not fire for Trace_Classifiers")
     # evidence
     nontrivial = set()
     for e in events:
